@@ -310,3 +310,13 @@ PROPS["C12"] = dict(
                  "bool payload bytes other than 0/1 and zero-element tensors are no-crash only"],
     stages=lambda tier: [mc("decode", "MC_C12.tla", "MC_C12_quick.cfg", min_cases=1500)],
 )
+
+PROPS["C13"] = dict(
+    rule="BFS: every single-input signature of rank 1..3 with each dimension fixed (2 or 3), symbolic or unspecified x supplied tensors "
+         "with every per-axis size in {d-1, d, d+1, 7}, other ranks (0, r-1, r+1, 5), missing / wrongly named / extra names, input "
+         "shadowed by an initializer (supplied or not); every 2- and 3-input signature of rank 1..2 with one input varied at a time, "
+         "one missing, two wrong, last shadowed; graph = one Shape node per input so acceptance and the tensor actually used are "
+         "observable; caller tensors and weights snapshotted around every call; non-trivial = every case (definite accept / reject outcome)",
+    assumptions=["when several inputs are wrong any of their error classes is accepted (the code ranges over a map)"],
+    stages=lambda tier: [mc("signature", "MC_C13.tla", "MC_C13_%s.cfg" % tier, min_cases=20000)],
+)
